@@ -1690,7 +1690,9 @@ def fam_randmemo(tier, seed):
             h = copy.deepcopy(g)
             h.id = "rm_%04d" % len(out)
             for r in h.rules:
-                if r.kind == "rule" and not r.export and r.name not in ("T", "O", "A", "B"):
+                # (LP lies on a left-recursive cycle: memoizing it is outside C05 / C07 - its failure during the
+                # seed evaluation would be cached and the growth would never see it succeed)
+                if r.kind == "rule" and not r.export and r.name not in ("T", "O", "A", "B", "L", "LP"):
                     r.memoize = (not r.memoize) if flip else r.memoize
             h.meta = dict(g.meta, base=g.id, memo=[r.name for r in h.rules if r.kind == "rule" and r.memoize],
                           probes={}, nrules=0, all_memo=False)
